@@ -157,37 +157,43 @@ func (t Time) Less(input Any) (Boolean, error) {
 // Add returns the result of t with the time-valued quantity added to it.
 // Returns an error if the Quantity does not represent a valid duration.
 func (t Time) Add(input Quantity) (Time, error) {
-	duration, err := input.timeDuration()
-	if err != nil {
-		return Time{}, err
-	}
-	duration = roundToTimePrecision(timeMap[t.l], duration)
-	return Time{t.time.Add(duration), t.l}, nil
+	return t.add(input, 1)
 }
 
 // Sub returns the result of the time-valued quantity subtracted from t.
 // Returns an error if the Quantity does not represent a valid duration.
 func (t Time) Sub(input Quantity) (Time, error) {
-	duration, err := input.timeDuration()
+	return t.add(input, -1)
+}
+
+func (t Time) add(input Quantity, sign int) (Time, error) {
+	unit, err := input.calendarUnit()
 	if err != nil {
 		return Time{}, err
 	}
-	duration = roundToTimePrecision(timeMap[t.l], duration)
-	return Time{t.time.Add(-duration), t.l}, nil
+	if unit < unitHour {
+		return Time{}, fmt.Errorf("%w: a time of day has no %v component", ErrMismatchedUnit, input.unit)
+	}
+	result, err := addQuantity(t.time, input, t.precisionUnit(), sign)
+	if err != nil {
+		return Time{}, err
+	}
+	// Wrap around midnight: keep the time of day on the zero date.
+	result = time.Date(0, time.January, 1, result.Hour(), result.Minute(), result.Second(), result.Nanosecond(), time.UTC)
+	return Time{result, t.l}, nil
 }
 
-// roundToTimePrecision is used to round down to the highest precision of
-// the time value.
-// Eg. 08:30 + 59 'seconds' = 08:30, but 08:30 + 60 'seconds' = 08:31
-func roundToTimePrecision(p timePrecision, d time.Duration) time.Duration {
-	switch p {
-	case hour:
-		return d / time.Hour
-	case minute:
-		return d / time.Minute
-	default:
-		return d
+// precisionUnit returns the unit of the value's finest component.
+func (t Time) precisionUnit() timeUnit {
+	switch t.l {
+	case hourLayout:
+		return unitHour
+	case minuteLayout:
+		return unitMinute
+	case secondLayout:
+		return unitSecond
 	}
+	return unitMillisecond
 }
 
 func (t Time) getComponents() []int {
